@@ -16,16 +16,20 @@
 (*               and Key(c), the transcription of ExprNodes.make_dedup_key   *)
 (*               UNDER PYTHON EQUALITY AND HASHING of the key (which is what *)
 (*               the dict lookup does): an item is (node type, value up to   *)
-(*               ==, Python type only for untyped object constants); tuple   *)
-(*               and slice keys are sequences, a frozenset key is a SET.     *)
+(*               ==, Python type only for untyped object constants, repr()   *)
+(*               of a float); tuple and slice keys are sequences; a          *)
+(*               frozenset key is a SET of item keys only if all items are   *)
+(*               atoms whose values are pairwise unequal, otherwise the      *)
+(*               sequence of ALL item keys in the order written.             *)
 (* TLC decides for every ordered pair of Python-equal constants of the        *)
 (* universe (and for ALL ordered pairs of a core universe) whether they      *)
-(* share a slot and whether CPython distinguishes them; the pairs that       *)
-(* share a slot although they differ are the hazards (published, replayed    *)
-(* on the real compiler).  Invariants: a shared key implies Python equality; *)
-(* every hazard is explained by exactly two root causes (sign of a float     *)
-(* zero, order of equal frozenset members); the repaired key (FKey) merges   *)
-(* only indistinguishable constants.                                        *)
+(* share a slot and whether CPython distinguishes them.  Invariants: a       *)
+(* shared key implies that CPython cannot tell the constants apart           *)
+(* (SharedImpliesObsEq), whatever the pool hands out is indistinguishable    *)
+(* from the constant as written (PoolSound); the pairs that Python considers *)
+(* equal although they differ (sign of a float zero, order of equal          *)
+(* frozenset members, type of equal numbers: Diff) are published and         *)
+(* replayed on the real compiler first.                                     *)
 (* Mode "real" (B3): the slot groups recorded from the real compiler's pool  *)
 (* are read from IOEnv.RECORDS and judged with the same ObsEq.               *)
 EXTENDS Integers, Sequences, FiniteSets, TLC, Json, IOUtils
@@ -105,71 +109,75 @@ Obs(c) == IF c.k = "atom" THEN c
 
 ---------------------------------------------------------------------------
 (* implementation-shaped: make_dedup_key under Python equality *)
-KK(t, v, p, seq, set) == [t |-> t, v |-> v, p |-> p, seq |-> seq, set |-> set]
-NoKey == KK("nokey", "", "", <<>>, {})           \* make_dedup_key returned None: the constant is not shared
-NoneKey == KK("PyObject", "none", "NoneType", <<>>, {})
+KK(t, v, p, r, seq, set) == [t |-> t, v |-> v, p |-> p, r |-> r, seq |-> seq, set |-> set]
+NoKey == KK("nokey", "", "", "", <<>>, {})       \* make_dedup_key returned None: the constant is not shared
+NoneKey == KK("PyObject", "none", "NoneType", "", <<>>, {})
 
-\* (node.type, node.constant_result, type(constant_result) if node.type is py_object_type else None):
-\* the value component compares with ==, so only its equality class counts
-\* fixed: the repair keeps the sign bit in the value component (e.g. repr() of a float)
-AtomKey(n, fixed) == KK(NodeType(n), IF fixed THEN n ELSE EqClass(n), IF NodeType(n) = "PyObject" THEN PyType(n) ELSE "", <<>>, {})
-MultKey(m) == IF m = 0 THEN NoneKey ELSE KK("CLong", "n2", "", <<>>, {})
+\* (node.type, node.constant_result, type(constant_result) if node.type is py_object_type else None,
+\*  repr(constant_result) if it is a float else None):
+\* the value component compares with ==, so only its equality class counts; the repr keeps the sign of a float zero
+AtomKey(n) == KK(NodeType(n), EqClass(n), IF NodeType(n) = "PyObject" THEN PyType(n) ELSE "",
+                 IF PyType(n) = "float" THEN n ELSE "", <<>>, {})
+MultKey(m) == IF m = 0 THEN NoneKey ELSE KK("CLong", "n2", "", "", <<>>, {})
 
 DedupKey(outer, iks, asSet) ==
   IF \E i \in 1..Len(iks) : iks[i] = NoKey THEN NoKey
-  ELSE IF asSet THEN KK(outer, "", "", <<>>, Range(iks)) ELSE KK(outer, "", "", iks, {})
+  ELSE IF asSet THEN KK(outer, "", "", "", <<>>, Range(iks)) ELSE KK(outer, "", "", "", iks, {})
 
-RECURSIVE ItemKeyG(_, _)
-ItemKeyG(c, fixed) ==
-  IF c.k = "tuple" THEN DedupKey("tuple", <<MultKey(c.m)>> \o [i \in 1..Len(c.items) |-> ItemKeyG(c.items[i], fixed)], FALSE)
-  ELSE IF c.k = "slice" THEN DedupKey("slice", [i \in 1..Len(c.items) |-> ItemKeyG(c.items[i], fixed)], FALSE)
-  ELSE IF c.k = "atom" THEN AtomKey(c.a, fixed)
+RECURSIVE ItemKeyG(_)
+ItemKeyG(c) ==
+  IF c.k = "tuple" THEN DedupKey("tuple", <<MultKey(c.m)>> \o [i \in 1..Len(c.items) |-> ItemKeyG(c.items[i])], FALSE)
+  ELSE IF c.k = "slice" THEN DedupKey("slice", [i \in 1..Len(c.items) |-> ItemKeyG(c.items[i])], FALSE)
+  ELSE IF c.k = "atom" THEN AtomKey(c.a)
   ELSE NoKey        \* a frozenset node nested in another constant has no constant_result: the outer constant is not shared
 
-\* fixed = FALSE: the code under test (frozenset key = SET of item keys);
-\* fixed = TRUE : the repair (sign-preserving values, frozenset key = ordered first representatives)
-TopKeyG(c, fixed) ==
-  IF c.k = "tuple" THEN ItemKeyG(c, fixed)
-  ELSE IF c.k = "slice" THEN DedupKey("slice", <<ItemKeyG(c, fixed)>>, FALSE)    \* make_dedup_key(self.type, (self,))
-  ELSE IF c.k = "fset" THEN
-       IF ~fixed THEN DedupKey("fset", [i \in 1..Len(c.items) |-> ItemKeyG(c.items[i], fixed)], TRUE)
-       ELSE LET fr == FirstReps(c.items) IN
-            DedupKey("fset", [i \in 1..Len(fr) |-> ItemKeyG(fr[i].c, fixed)], FALSE)
-  ELSE KK("num", c.a, "", <<>>, {})     \* numbers / strings / None: own tables keyed by the literal text and type
+\* frozenset: unique_keys = frozenset(item_keys); the key is that set only if no item is a sequence constructor or
+\* a slice and the values key[1] of the unique keys are pairwise unequal (then no item can hide another one);
+\* otherwise it is tuple(item_keys): order and multiplicity as written
+FsetKey(c) ==
+  LET iks == [i \in 1..Len(c.items) |-> ItemKeyG(c.items[i])]
+      hasContainers == \E i \in 1..Len(c.items) : c.items[i].k \in {"tuple", "slice"}
+      unique == Range(iks)
+  IN IF ~hasContainers /\ Cardinality({k.v : k \in unique}) = Cardinality(unique)
+     THEN DedupKey("fset", iks, TRUE) ELSE DedupKey("fset", iks, FALSE)
 
-Key(c)  == TopKeyG(c, FALSE)
-FKey(c) == TopKeyG(c, TRUE)
+TopKeyG(c) ==
+  IF c.k = "tuple" THEN ItemKeyG(c)
+  ELSE IF c.k = "slice" THEN DedupKey("slice", <<ItemKeyG(c)>>, FALSE)    \* make_dedup_key(self.type, (self,))
+  ELSE IF c.k = "fset" THEN FsetKey(c)
+  ELSE KK("num", c.a, "", "", <<>>, {})     \* numbers / strings / None: own tables keyed by the literal text and type
+
+Key(c)  == TopKeyG(c)
 Shared(a, b) == Key(a) # NoKey /\ Key(a) = Key(b)
-FShared(a, b) == FKey(a) # NoKey /\ FKey(a) = FKey(b)
 
 ---------------------------------------------------------------------------
 (* the pool: get_py_const + the code that initialises a new constant.  Every literal container node,   *)
 (* at any depth, asks the pool for a slot with its own key; a hit returns the constant that created the *)
 (* slot (its items are not looked at again), a miss builds the constant from the slots of its items.    *)
 (* A pool is a set of <<key, constant as built>>.                                                        *)
-RECURSIVE InternG(_, _, _), InternItems(_, _, _)
-InternG(pool, c, fixed) ==
+RECURSIVE InternG(_, _), InternItems(_, _)
+InternG(pool, c) ==
   IF c.k = "atom" THEN [pool |-> pool, val |-> c]
-  ELSE LET k == TopKeyG(c, fixed) IN
+  ELSE LET k == TopKeyG(c) IN
        IF k # NoKey /\ \E e \in pool : e[1] = k
        THEN [pool |-> pool, val |-> (CHOOSE e \in pool : e[1] = k)[2]]
-       ELSE LET r == InternItems(pool, c.items, fixed)
+       ELSE LET r == InternItems(pool, c.items)
                 v == C(c.k, c.a, c.m, r.vals)
             IN [pool |-> IF k # NoKey THEN r.pool \cup {<<k, v>>} ELSE r.pool, val |-> v]
-InternItems(pool, items, fixed) ==
+InternItems(pool, items) ==
   IF items = <<>> THEN [pool |-> pool, vals |-> <<>>]
-  ELSE LET h == InternG(pool, Head(items), fixed)
-           t == InternItems(h.pool, Tail(items), fixed)
+  ELSE LET h == InternG(pool, Head(items))
+           t == InternItems(h.pool, Tail(items))
        IN [pool |-> t.pool, vals |-> <<h.val>> \o t.vals]
 
 \* what the function written with `a` returns in a module that contains only a ...
-Alone(a, fixed) == InternG({}, a, fixed).val
+Alone(a) == InternG({}, a).val
 \* ... and what the function written with b returns when a comes first
-After(a, b, fixed) == InternG(InternG({}, a, fixed).pool, b, fixed).val
+After(a, b) == InternG(InternG({}, a).pool, b).val
 
 ---------------------------------------------------------------------------
-(* root causes *)
-RECURSIVE ZN(_), SetEq(_, _)
+(* reference side: in what way two Python-equal constants differ for CPython *)
+RECURSIVE ZN(_), SetEq(_, _), Subs(_)
 ZN(c) == IF c.k = "atom" THEN (IF c.a = "-0.0" THEN Atom("0.0") ELSE c)       \* forget the sign of float zeros
          ELSE C(c.k, c.a, c.m, [i \in 1..Len(c.items) |-> ZN(c.items[i])])
 SetEq(x, y) ==                                                                \* equal up to order / multiplicity of frozenset items
@@ -177,8 +185,17 @@ SetEq(x, y) ==                                                                \*
   ELSE IF x.k = "fset" THEN /\ \A i \in 1..Len(x.items) : \E j \in 1..Len(y.items) : SetEq(x.items[i], y.items[j])
                             /\ \A j \in 1..Len(y.items) : \E i \in 1..Len(x.items) : SetEq(x.items[i], y.items[j])
   ELSE Len(x.items) = Len(y.items) /\ \A i \in 1..Len(x.items) : SetEq(x.items[i], y.items[i])
-\* why the constant `got` that a function returns differs from the constant `c` it was written with
-Cause(c, got) == IF ObsEq(c, got) THEN "none" ELSE IF ObsEq(ZN(c), ZN(got)) THEN "zero-sign" ELSE "fset-order"
+\* how the constant `got` differs from the Python-equal constant `c`: not at all, only in the sign of float zeros,
+\* (also) in which of several equal members a frozenset keeps, or in the type of equal numbers (1, 1.0, True)
+Cause(c, got) == IF ObsEq(c, got) THEN "none" ELSE IF ObsEq(ZN(c), ZN(got)) THEN "zero-sign"
+                 ELSE IF SetEq(ZN(c), ZN(got)) THEN "fset-order" ELSE "num-type"
+\* the containers inside a constant (each of them asks the pool for a slot)
+Subs(c) == IF c.k = "atom" THEN {} ELSE {c} \cup UNION {Subs(c.items[i]) : i \in 1..Len(c.items)}
+\* a pool that merged by Python equality would hand out a distinguishable constant somewhere in a, b:
+\* the cases in which sharing has to be refused (replayed first by the binding)
+Sensitive(a, b) == \E x, y \in Subs(a) \cup Subs(b) : PyEq(x, y) /\ ~ObsEq(x, y)
+Diff(a, b) == IF PyEq(a, b) /\ ~ObsEq(a, b) THEN Cause(b, a)
+              ELSE IF Sensitive(a, b) THEN "inner" ELSE IF PyEq(a, b) THEN "none" ELSE "unequal"
 
 ---------------------------------------------------------------------------
 (* the universe *)
@@ -245,21 +262,17 @@ Pair == Mode # "real" /\ Len(hist) = 2
 A == hist[1]
 B == hist[2]
 
-(* sharing never goes beyond Python equality ...                             *)
+(* sharing never goes beyond Python equality, in fact never beyond what CPython can tell apart ...      *)
 KeyImpliesPyEq == Pair => (Shared(A, B) => PyEq(A, B))
-(* ... and whatever the pool hands out differs from what was written at most in the sign of float zeros *)
-(* and in the order / multiplicity of equal frozenset members (this characterises the defect)          *)
-MergeExplained == /\ Len(hist) >= 1 /\ Mode # "real" => SetEq(ZN(Alone(A, FALSE)), ZN(A))
-                  /\ Pair => SetEq(ZN(After(A, B, FALSE)), ZN(B))
+SharedImpliesObsEq == Pair => (Shared(A, B) => ObsEq(A, B))
+(* ... and whatever the pool hands out (at any depth: inner containers have slots of their own) is       *)
+(* indistinguishable from the constant as written: full agreement of the pool with the reference         *)
+PoolSound == /\ Len(hist) >= 1 /\ Mode # "real" => ObsEq(Alone(A), A)
+             /\ Pair => ObsEq(After(A, B), B)
 (* a top-level hit hands out exactly what the first constant evaluates to    *)
-HitReturnsFirst == Pair => (Shared(A, B) => After(A, B, FALSE) = Alone(A, FALSE))
+HitReturnsFirst == Pair => (Shared(A, B) => After(A, B) = Alone(A))
 (* equal constants written the same way are shared (the pool does its job)   *)
 SameTextShared == Pair => ((A = B /\ Key(A) # NoKey) => Shared(A, B))
-(* the repaired key hands out only what CPython cannot tell apart from what was written, and still     *)
-(* shares identical constants                                                                          *)
-FixedKeySound == /\ Len(hist) >= 1 /\ Mode # "real" => ObsEq(Alone(A, TRUE), A)
-                 /\ Pair => ObsEq(After(A, B, TRUE), B)
-FixedKeyShares == Pair => ((A = B /\ Key(A) # NoKey) => FShared(A, B))
 (* reference sanity: ObsEq refines PyEq; Obs of a constant is a fixed point  *)
 ObsRefinesEq == Pair => (ObsEq(A, B) => PyEq(A, B))
 ObsIdempotent == Len(hist) >= 1 => ObsEq(Obs(hist[Len(hist)]), hist[Len(hist)])
@@ -282,11 +295,10 @@ RECURSIVE RepeatInFset(_, _)
 RepeatInFset(c, inside) == IF c.k = "atom" THEN FALSE
                            ELSE (inside /\ c.m = 2) \/ \E i \in 1..Len(c.items) : RepeatInFset(c.items[i], inside \/ c.k = "fset")
 Taggable(a, b) == ~RepeatInFset(a, FALSE) /\ ~RepeatInFset(b, FALSE)
-TaggingLemma == /\ Len(hist) >= 1 /\ Mode # "real" /\ Taggable(A, A) => Alone(Tagged(A), FALSE) = Tagged(Alone(A, FALSE))
+TaggingLemma == /\ Len(hist) >= 1 /\ Mode # "real" /\ Taggable(A, A) => Alone(Tagged(A)) = Tagged(Alone(A))
                 /\ Pair /\ Taggable(A, B) =>
                            /\ Shared(Tagged(A), Tagged(B)) = Shared(A, B)
-                           /\ After(Tagged(A), Tagged(B), FALSE) = Tagged(After(A, B, FALSE))
-                           /\ Cause(Tagged(B), After(Tagged(A), Tagged(B), FALSE)) = Cause(B, After(A, B, FALSE))
+                           /\ After(Tagged(A), Tagged(B)) = Tagged(After(A, B))
                            /\ ~PyEq(A, B) => ~PyEq(Tagged(A), Tagged(B))
 
 (* near misses: constants that Python does NOT consider equal although they are built alike -- the same  *)
@@ -299,22 +311,15 @@ Near(a, b) == /\ a.k # "atom" /\ b.k # "atom" /\ ~PyEq(a, b)
                     /\ Cardinality({i \in 1..Len(a.items) : ~PyEq(a.items[i], b.items[i])}) = 1
 NearMissesNotShared == Pair => (Near(A, B) => ~Shared(A, B))
 
-\* ret / tret: what the implementation-shaped pool hands out (plain and tagged form), published only where it
-\* differs from the constant as written (a hazard)
+\* diff: the reference-side class of the case (how the two constants, or containers inside them, differ although
+\* Python considers them equal); the pool itself is proven sound, so there is no deviation to predict
 PublishConst == (Dump /\ Mode # "real" /\ Len(hist) = 1) =>
-                  LET r == Alone(A, FALSE) hz == ~ObsEq(r, A) IN
                   PrintT("@@" \o ToJson([c |-> A, obs |-> Obs(A), dedup |-> Key(A) # NoKey,
                                           tc |-> Tagged(A), tobs |-> Obs(Tagged(A)),
-                                          cause |-> Cause(A, r),
-                                          ret |-> IF hz THEN Obs(r) ELSE Atom("None"),
-                                          tret |-> IF hz THEN Obs(Alone(Tagged(A), FALSE)) ELSE Atom("None")]))
+                                          diff |-> Diff(A, A)]))
 PublishPair == (Dump /\ Pair /\ (Shared(A, B) \/ PyEq(A, B) \/ Near(A, B))) =>
-                  LET r == After(A, B, FALSE) hz == ~ObsEq(r, B) IN
-                  PrintT("@@" \o ToJson([a |-> A, b |-> B, shared |-> Shared(A, B), obseq |-> ObsEq(A, B),
-                                          cause |-> Cause(B, r), near |-> Near(A, B), taggable |-> Taggable(A, B),
-                                          fixed_ok |-> ObsEq(After(A, B, TRUE), B),
-                                          ret |-> IF hz THEN Obs(r) ELSE Atom("None"),
-                                          tret |-> IF hz THEN Obs(After(Tagged(A), Tagged(B), FALSE)) ELSE Atom("None")]))
+                  PrintT("@@" \o ToJson([a |-> A, b |-> B, shared |-> Shared(A, B), obseq |-> ObsEq(A, B), pyeq |-> PyEq(A, B),
+                                          diff |-> Diff(A, B), near |-> Near(A, B), taggable |-> Taggable(A, B)]))
 \* B3 verdict for one real slot group
 PublishReal == (Mode = "real" /\ grp > 0 /\ Len(hist) = Len(Records[grp].consts)) =>
                   PrintT("@@" \o ToJson([slot |-> Records[grp].slot, n |-> Len(hist),
